@@ -26,6 +26,8 @@ DESIGN = dict(
     EarlyExitWalk=False,    # object.go checks given fields and required fields in two complete loops
     LastKeyDecides=False,   # enum.go returns at the first value whose display names differ
     MemoRootUnsync=False,   # scope.go RootObject looks the root up on every call (no memo)
+    ReuseInputContainer=False,  # list.go always builds a new slice for the unserialised items
+    ReleaseOutsideLock=False,   # step.go never deletes from the run table
     NoStepMutex=False,      # step.go 200-223 holds initializerMutex
     EnumEarlyReturn=False,  # enum.go: repaired (return nil -> continue)
 )
@@ -40,7 +42,9 @@ CONCRETE = {
     ("units0", "fresh"): ["int_custom0"],
     ("units0", "rebuilt"): ["int_chars", "int_pct", "float_pct", "int_custom0"],
     ("objmap", "fresh"): ["objmap"], ("objmap", "rebuilt"): ["objmap", "plugin_input"], ("objmap", "derived"): ["objmap"],
-    ("steps", "derived"): ["steps"],
+    ("steps", "derived"): ["steps"], ("steps", "plain"): ["steps"],
+    ("listarg", "fresh"): ["list_oneof", "list_any", "list_objmap", "map_objmap"],
+    ("listarg", "rebuilt"): ["list_oneof", "list_any", "list_objmap", "map_objmap"],
     ("objstruct", "fresh"): ["objstruct"], ("objstruct", "rebuilt"): ["objstruct"],
     ("objreq", "fresh"): ["objreq"], ("objreq", "rebuilt"): ["objreq"],
     ("anylist", "fresh"): ["any_top", "any_prop"], ("anylist", "rebuilt"): ["any_top", "any_prop"],
@@ -70,7 +74,7 @@ def arg_class(tok):
     return {"nrand": "limits_left_out", "str_over": "out_of_range", "list_over": "out_of_range",
             "list_mixed": "list_items", "list_bad": "list_items", "map_list": "list_items",
             "renamed": "display_name_differs", "unnamed": "display_name_differs", "scope_renamed": "display_name_differs",
-            "typed_collide": "collide",
+            "typed_collide": "collide", "same_type": "container_of_result_type", "same_type_bad": "container_of_result_type",
             "data_partial": "omits_required", "props_partial": "omits_required", "schema_partial": "omits_required"}.get(tok, tok)
 
 
